@@ -21,6 +21,7 @@ CONSTANTS
   MaxSteps = 100
   CrashOdds = 25
   StopOdds = 12
+  CrashAfterCommit = FALSE
 INIT MBTInit
 NEXT MBTNext
 CHECK_DEADLOCK FALSE
